@@ -175,7 +175,17 @@ func genOps(r *hx.Rng, t *chainx.Tree, prop, mode string) []Op {
 			ops = append(ops, Op{Kind: 'R'})
 		}
 		if r.Intn(100) < pSet {
-			ops = append(ops, Op{Kind: 'S', N: uint64(r.Intn(int(maxH) + 2))})
+			if mode == "pruning" && r.Intn(3) == 0 { // restart first: the rewind is then likely to land on a block without state
+				ops = append(ops, Op{Kind: 'R'})
+			}
+			n1 := uint64(r.Intn(int(maxH) + 2))
+			ops = append(ops, Op{Kind: 'S', N: n1})
+			switch r.Intn(4) {
+			case 0: // a second, deeper rewind right away (the block head may lag behind the header head by now)
+				ops = append(ops, Op{Kind: 'S', N: uint64(r.Intn(int(n1) + 1))})
+			case 1: // rewind, import, rewind again
+				ops = append(ops, Op{Kind: kind, IDs: pathIDs(t, 1+r.Intn(len(t.Nodes)-1))}, Op{Kind: 'S', N: uint64(r.Intn(int(n1) + 1))})
+			}
 			if r.Intn(2) == 0 { // give the chain of some node again (re-import after the rewind)
 				ops = append(ops, Op{Kind: kind, IDs: pathIDs(t, 1+r.Intn(len(t.Nodes)-1))})
 			}
@@ -206,9 +216,42 @@ func genMixedOps(r *hx.Rng, t *chainx.Tree) []Op {
 	kinds := []byte{'I', 'H'}
 	var ops []Op
 	var done [][]int
+	asBlock := map[int]bool{0: true}
+	// the (most likely) block head: the heaviest node whose whole ancestry went in as blocks
+	blockHead := func() int {
+		best := 0
+		for _, n := range t.Nodes {
+			ok := asBlock[n.ID]
+			for a := n; ok && a.Parent >= 0; a = t.Nodes[a.Parent] {
+				ok = asBlock[a.Parent]
+			}
+			if ok && t.Td(n.ID).Cmp(t.Td(best)) > 0 {
+				best = n.ID
+			}
+		}
+		return best
+	}
 	for _, b := range t.Batches(r, t.ParentClosedOrder(r)) {
-		ops = append(ops, Op{Kind: kinds[r.Intn(2)], IDs: b})
+		k := kinds[r.Intn(2)]
+		ops = append(ops, Op{Kind: k, IDs: b})
+		if k == 'I' {
+			for _, id := range b {
+				asBlock[id] = true
+			}
+		}
 		done = append(done, b)
+		if k == 'H' && r.Intn(100) < 40 {
+			// after a header import (which may have re-routed or shortened the number index): new blocks on top of the
+			// current BLOCK head (the tree grows here; it is rendered after the operations are generated)
+			tip := blockHead()
+			var ext []int
+			for i := 1 + r.Intn(3); i > 0; i-- {
+				tip = t.AddChild(r, tip).ID
+				ext = append(ext, tip)
+				asBlock[tip] = true
+			}
+			ops = append(ops, Op{Kind: 'I', IDs: ext})
+		}
 		if r.Intn(100) < 30 {
 			ops = append(ops, Op{Kind: kinds[r.Intn(2)], IDs: done[r.Intn(len(done))]})
 		}
@@ -227,6 +270,9 @@ func genMixedOps(r *hx.Rng, t *chainx.Tree) []Op {
 // directedMixed: full blocks of a heavy main chain first, then bare headers of a strictly LIGHTER fork, of an equally
 // heavy twin of the tip and of a HEAVIER fork (and the variants headers-first / interleaved).
 func directedMixed(r *hx.Rng, variant int) (*chainx.Tree, []Op) {
+	if variant >= 6 {
+		return directedShorterHeaderFork(r, variant)
+	}
 	t := chainx.NewTree(chainx.Opts{WithTxs: true, MinOffset: -9, MaxOffset: 0, ForkFree: true})
 	var main []int
 	tip := 0
@@ -260,6 +306,49 @@ func directedMixed(r *hx.Rng, variant int) (*chainx.Tree, []Op) {
 	default: // interleaved
 		ops = []Op{{Kind: 'I', IDs: main[:2]}, {Kind: 'H', IDs: light[:1]}, {Kind: 'I', IDs: main[2:]}, {Kind: 'H', IDs: light[1:]},
 			{Kind: 'I', IDs: light}, {Kind: 'H', IDs: []int{twinA}}, {Kind: 'H', IDs: heavy}, {Kind: 'I', IDs: []int{twinA}}}
+	}
+	return t, ops
+}
+
+// directedShorterHeaderFork: a long light chain goes in as BLOCKS, then a SHORTER but heavier sibling branch as bare headers
+// (WriteHeader re-routes the number index to it and unmaps the heights above its tip), then the block chain is extended on
+// top of the old block head: `insert` has to re-point every height below the new block down to the fork point, across the
+// unmapped heights.
+func directedShorterHeaderFork(r *hx.Rng, variant int) (*chainx.Tree, []Op) {
+	t := chainx.NewTree(chainx.Opts{WithTxs: true, MinOffset: 1500, MaxOffset: 2000, ForkFree: true})
+	fork := 0
+	var pre []int
+	for i := r.Intn(3); i > 0; i-- {
+		fork = t.AddChild(r, fork).ID
+		pre = append(pre, fork)
+	}
+	a, b := fork, fork
+	var long, short, ext []int
+	for i := 0; i < 14+r.Intn(3); i++ { // long enough for the fast branch to overtake it while still 2–3 blocks shorter
+		a = t.AddChild(r, a).ID
+		long = append(long, a)
+	}
+	t.Opts.MinOffset, t.Opts.MaxOffset = -9, 0
+	for i := 0; i < len(long)-1 && t.Td(b).Cmp(t.Td(a)) <= 0; i++ {
+		b = t.AddChild(r, b).ID
+		short = append(short, b)
+	}
+	t.Opts.MinOffset, t.Opts.MaxOffset = 1500, 2000
+	for i := 0; i < 3; i++ {
+		a = t.AddChild(r, a).ID
+		ext = append(ext, a)
+	}
+	blocks := append(append([]int{}, pre...), long...)
+	var ops []Op
+	switch variant % 3 {
+	case 0: // blocks, shorter heavier header fork, one more block, then two more
+		ops = []Op{{Kind: 'I', IDs: blocks}, {Kind: 'H', IDs: short}, {Kind: 'I', IDs: ext[:1]}, {Kind: 'I', IDs: ext[1:]}}
+	case 1: // the header fork arrives in two batches, a block after each; finally the blocks of the fork follow
+		h := len(short) / 2
+		ops = []Op{{Kind: 'I', IDs: blocks}, {Kind: 'H', IDs: short[:h]}, {Kind: 'I', IDs: ext[:1]}, {Kind: 'H', IDs: short},
+			{Kind: 'I', IDs: ext[1:2]}, {Kind: 'I', IDs: short}, {Kind: 'I', IDs: ext[2:]}}
+	default: // the whole extension in one batch, then the header fork again (known) and as blocks
+		ops = []Op{{Kind: 'I', IDs: blocks}, {Kind: 'H', IDs: short}, {Kind: 'I', IDs: ext}, {Kind: 'H', IDs: short}, {Kind: 'I', IDs: short}}
 	}
 	return t, ops
 }
@@ -972,6 +1061,38 @@ func Main(prop string) {
 			w.runHistory(ops)
 		}
 	}
+	// Directed histories (C03): successive rewinds on a restarted pruning node. The first SetHead lands on a block whose state
+	// is gone (the block head falls back to genesis, the header head stays at the target, bodies and lookups stay), the
+	// second one goes deeper: everything above ITS target must go — bodies, receipts, td, number entries, lookups — although
+	// those blocks are above the block head. Variants: rewind–rewind, rewind–import–rewind, rewind–rewind–import–rewind.
+	if prop == "C03" {
+		for di := 0; di < 3; di++ {
+			r := rng.Fork(uint64(0x2E71D + di))
+			t := chainx.NewTree(chainx.Opts{WithTxs: true, MinOffset: -9, MaxOffset: 400, ForkFree: true})
+			var main []int
+			tip := 0
+			for i := 0; i < 8+r.Intn(3); i++ {
+				tip = t.AddChild(r, tip).ID
+				main = append(main, tip)
+			}
+			side := t.AddChild(r, main[1]).ID
+			a := uint64(5 + r.Intn(3))
+			b := uint64(2 + r.Intn(2))
+			ops := []Op{{Kind: 'I', IDs: main}, {Kind: 'R'}, {Kind: 'S', N: a}}
+			switch di {
+			case 0:
+				ops = append(ops, Op{Kind: 'S', N: b}, Op{Kind: 'I', IDs: main})
+			case 1:
+				ops = append(ops, Op{Kind: 'I', IDs: main[:3]}, Op{Kind: 'S', N: b}, Op{Kind: 'I', IDs: []int{side}}, Op{Kind: 'I', IDs: main})
+			default:
+				ops = append(ops, Op{Kind: 'S', N: a - 1}, Op{Kind: 'I', IDs: []int{side}}, Op{Kind: 'S', N: 1}, Op{Kind: 'I', IDs: main[:4]}, Op{Kind: 'S', N: 0})
+			}
+			w := &world{prop: prop, run: run, t: t, mode: "pruning", histID: fmt.Sprintf("hist#rewind-twice-%d", di),
+				cache: &core.CacheConfig{Disabled: false, TrieNodeLimit: 1, TrieTimeLimit: time.Millisecond}}
+			run.Count("mode:directed-rewind-twice")
+			w.runHistory(ops)
+		}
+	}
 	// Directed histories: a long light branch carrying transactions in its top blocks is replaced by a shorter heavier one
 	// in one reorganisation (number entries AND lookups of the blocks above the new height must go), full and header-first.
 	for di, mode := range []string{"archive", "pruning", "headers"} {
@@ -1012,13 +1133,21 @@ func Main(prop string) {
 		if run.Thorough() {
 			nMixed *= 25
 		}
-		for h := 0; h < nMixed+6; h++ {
+		for h := 0; h < nMixed+9; h++ {
 			r := rng.Fork(uint64(0xA11CE + h))
 			var t *chainx.Tree
 			var ops []Op
-			if h < 6 {
+			if h < 9 {
 				t, ops = directedMixed(r, h)
 				run.Count("tree:directed-mixed")
+				if h >= 6 { // is the header fork really heavier and shorter than the block chain it competes with?
+					bl, hd := ops[0].IDs, ops[1].IDs
+					if len(ops[1].IDs) < len(ops[3].IDs) && ops[3].Kind == 'H' {
+						hd = ops[3].IDs
+					}
+					run.Count(fmt.Sprintf("tree:directed-shorter-header-fork:heavier=%v:shorter-by=%d", t.Td(hd[len(hd)-1]).Cmp(t.Td(bl[len(bl)-1])) > 0,
+						int(t.Nodes[bl[len(bl)-1]].Block.NumberU64())-int(t.Nodes[hd[len(hd)-1]].Block.NumberU64())))
+				}
 			} else {
 				t = buildTree(r, 5+r.Intn(10), []int{10, 30, 60}[r.Intn(3)], []int{0, 25, 50}[r.Intn(3)], r.Intn(100) < 30)
 				ops = genMixedOps(r, t)
@@ -1056,7 +1185,10 @@ func Main(prop string) {
 			ops = append(ops, Op{Kind: 'I', IDs: main[i:j]})
 		}
 		if prop == "C03" {
-			ops = append(ops, Op{Kind: 'S', N: 130}, Op{Kind: 'I', IDs: main[130:]}, Op{Kind: 'S', N: 4}, Op{Kind: 'I', IDs: []int{side2}})
+			// rewinds: onto a block with state; re-import; onto a block whose state was garbage collected during import (the
+			// block head falls back to genesis); a second, deeper one from that state; an import; a third one
+			ops = append(ops, Op{Kind: 'S', N: 130}, Op{Kind: 'I', IDs: main[130:]}, Op{Kind: 'S', N: 10}, Op{Kind: 'S', N: 4},
+				Op{Kind: 'I', IDs: []int{side2}}, Op{Kind: 'I', IDs: main[:8]}, Op{Kind: 'S', N: 6}, Op{Kind: 'S', N: 2})
 		} else {
 			ops = append(ops, Op{Kind: 'I', IDs: []int{side2}}, Op{Kind: 'I', IDs: main[100:]})
 		}
